@@ -199,7 +199,7 @@ func (fr *Frame) applyContract(v ssa.Value, ct *Contract, name string, c *ssa.Ca
 	// 1b. the caller's own at_call assertions for this callee
 	if fr.top {
 		for i, ac := range vc.ct.AtCalls {
-			if ac.Var != name {
+			if ac.Var != name && ac.Var != fr.ord(in) {
 				continue
 			}
 			e2 := fr.env0.child()
